@@ -55,6 +55,10 @@ QOrder == {Q(tg, NoE, <<>>, NoE, od, <<>>, ds, lm) :
 QDistinct == {Q(tg, NoE, <<>>, NoE, <<>>, <<>>, TRUE, lm) : tg \in {<<T(cK, ""), T(cS, "")>>, <<T(cS, "")>>, <<T(cK, ""), T(cV, "")>>},
                  lm \in {-1, 0, 1, 2, 9}}
           \cup {Q(<<T(cK, "")>>, NoE, <<>>, NoE, <<O(RefE(cV), d)>>, <<>>, TRUE, lm) : d \in BOOLEAN, lm \in {-1, 1, 2}}
+\* DISTINCT over aggregate rows: groups whose visible values coincide (a GROUP BY key that is not selected) are duplicates
+QDistinctAgg == {Q(tg, NoE, gr, NoE, od, <<>>, TRUE, lm) :
+                    tg \in {<<T(Agg("count", Star), "c")>>, <<T(cK, "kk"), T(Agg("count", Star), "c")>>},
+                    gr \in {<<RefE(cK), RefE(cS)>>, <<RefE(cS)>>}, od \in {<<>>, <<O(RefIdx(1), TRUE)>>}, lm \in {-1, 1, 2}}
 
 \* C02: aggregation.  grouping references by expression / output name / position, visible / hidden, implicit
 AggsV == {Agg("count", Star), Agg("count", cV), Agg("sum", cV), Agg("min", cV), Agg("max", cV), Agg("first", cV),
@@ -83,7 +87,13 @@ QPivotOrd == {Q(<<T(cK, "kk"), T(cS, "ss"), T(Agg("sum", cV), "sv")>>, NoE, <<Re
                  od \in {<<O(RefIdx(1), TRUE)>>, <<O(RefE(Col("kk")), TRUE), O(RefIdx(2), FALSE)>>, <<O(RefIdx(2), TRUE)>>, <<O(RefIdx(3), TRUE)>>,
                          <<O(RefIdx(1), FALSE)>>},
                  pv \in {<<RefIdx(1), RefIdx(2)>>, <<RefIdx(2), RefIdx(1)>>}}
-QPivot == QPivotOrd \cup {Q(tg, NoE, <<RefIdx(g1), RefIdx(g2)>>, NoE, <<>>, pv, FALSE, -1) :
+\* helper targets (HAVING, ORDER BY on an aggregate that is not selected) are not columns of the pivoted result
+QPivotHid == {Q(tg, NoE, <<RefIdx(1), RefIdx(2)>>, ho[1], ho[2], <<RefIdx(1), RefIdx(2)>>, FALSE, -1) :
+                 tg \in {<<T(cK, "kk"), T(cS, "ss"), T(Agg("sum", cV), "sv")>>,
+                         <<T(cK, "kk"), T(cS, "ss"), T(Agg("sum", cV), "sv"), T(Agg("count", Star), "c")>>},
+                 ho \in {<<Bin("gt", Agg("count", cV), Const(IntV(0))), <<>>>>, <<NoE, <<O(RefE(Agg("max", cV)), TRUE)>>>>,
+                         <<Un("isnotnull", Agg("min", cW)), <<O(RefE(Agg("count", Star)), FALSE)>>>>}}
+QPivot == QPivotOrd \cup QPivotHid \cup {Q(tg, NoE, <<RefIdx(g1), RefIdx(g2)>>, NoE, <<>>, pv, FALSE, -1) :
               tg \in {<<T(cK, "kk"), T(cS, "ss"), T(Agg("sum", cV), "sv")>>,
                       <<T(cK, "kk"), T(cS, "ss"), T(Agg("sum", cV), "sv"), T(Agg("count", Star), "c")>>},
               g1 \in {1}, g2 \in {2},
@@ -142,11 +152,11 @@ QInvalid == {
 
 Queries ==
     CASE QuerySet = "plain" -> QPlain
-      [] QuerySet = "order" -> QOrder \cup QDistinct
+      [] QuerySet = "order" -> QOrder \cup QDistinct \cup QDistinctAgg
       [] QuerySet = "group" -> QGroup1 \cup QGroup2 \cup QHaving \cup QHidden \cup QNoRows
       [] QuerySet = "pivot" -> QPivot \cup QPivotInvalid
       [] QuerySet = "invalid" -> QInvalid
-      [] OTHER -> QPlain \cup QOrder \cup QDistinct \cup QGroup1 \cup QGroup2 \cup QHaving \cup QHidden \cup QNoRows \cup QPivot \cup QPivotInvalid \cup QInvalid
+      [] OTHER -> QPlain \cup QOrder \cup QDistinct \cup QDistinctAgg \cup QGroup1 \cup QGroup2 \cup QHaving \cup QHidden \cup QNoRows \cup QPivot \cup QPivotInvalid \cup QInvalid
 
 -----------------------------------------------------------------------------
 VARIABLES code, q, phase, i, keys, groups, rows, passhi, out, table, cq
@@ -299,12 +309,15 @@ PivotLaw ==
 EncV(x) == <<x.t, x.n, x.d, x.s>>
 EncRows(rs) == [a \in 1..Len(rs) |-> [b \in 1..Len(rs[a]) |-> EncV(rs[a][b])]]
 Names == IF cq.ok THEN [j \in 1..cq.nvis |-> cq.ts[j].name] ELSE <<>>
+Types == IF cq.ok THEN [j \in 1..cq.nvis |-> TypeOf(cq.ts[j].e, Sch)] ELSE <<>>
+Piv == cq.ok /\ Len(cq.pivot) = 2 /\ phase = "done" /\ ~ExecOOD(q, cq, table, Sch)
+PHead == PivotHead(ExecCut(q, cq, table, Sch), Names, Types, cq.nvis, cq.pivot[1], cq.pivot[2])
 Emit ==
     IF EmitMode = "cases" /\ phase \in {"done", "rejected"}
     THEN PrintT(ToJson([code |-> code, q |-> q, ok |-> cq.ok, err |-> cq.err,
                         ood |-> (cq.ok /\ ExecOOD(q, cq, table, Sch)),
-                        names |-> Names,
-                        types |-> IF cq.ok THEN [j \in 1..cq.nvis |-> TypeOf(cq.ts[j].e, Sch)] ELSE <<>>,
+                        names |-> IF Piv THEN PHead.names ELSE Names,
+                        types |-> IF Piv THEN PHead.types ELSE Types,
                         out |-> EncRows(out)]))
     ELSE TRUE
 EmitTable ==
